@@ -12,7 +12,7 @@ import (
 
 // C15 — reading, persisting and merging never modify a segment or the caller's bitmaps.
 const c15Rule = "case = 2..3 segments (built / loaded / merged) + caller-owned bitmaps (array containers holding consecutive values, so that an in-place run-optimisation would change their bytes; " +
-	"foreign numbers for exclusions) and a history of <=10 actions: postings walks with a bitmap as exclusion, DocsMatchingTerms, stored / doc-value visits, WriteTo, merges (hooked and public) taking drawn segments as " +
+	"foreign numbers for exclusions) and a history of <=10 actions: postings walks with a bitmap as exclusion, DocsMatchingTerms, stored / doc-value visits (also with the slice Fields() returned as the field list), WriteTo, merges (hooked and public) taking drawn segments as " +
 	"inputs with the bitmaps as drops, builds of unrelated batches; oracle = snapshot before (full observation + persisted bytes per segment; clone + serialised bytes per bitmap), everything re-observed after every action must be identical " +
 	"(set AND representation equality for bitmaps); non-trivial = the history contains a merge with a non-empty drop bitmap followed by a re-observation of its inputs; distinct = hash of case text + history"
 
@@ -113,6 +113,7 @@ func c15Prop(st *CaseStats) func(t *rapid.T) {
 
 		hist := ""
 		mergedWithDrops := false
+		aliased := false
 		nt := false
 		verify := func() {
 			for i, c := range cases {
@@ -152,7 +153,22 @@ func c15Prop(st *CaseStats) func(t *rapid.T) {
 			si := rapid.IntRange(0, nSeg-1).Draw(t, "seg")
 			c := cases[si]
 			var err error
-			switch rapid.IntRange(0, 8).Draw(t, "action") {
+			switch rapid.IntRange(0, 9).Draw(t, "action") {
+			case 9: // the slice Fields() returned handed straight back to a read API (all fields' doc values)
+				hist += fmt.Sprintf(" dvOverFields(seg%d)", si)
+				aliased = true
+				err = safely("doc values over Fields()", func() error {
+					r, err := c.Seg.DocumentValueReader(c.Seg.Fields())
+					if err != nil {
+						return err
+					}
+					for d := c.Exp.N - 1; d >= 0; d-- {
+						if err := r.VisitDocumentValues(uint64(d), func(string, []byte) {}); err != nil {
+							return err
+						}
+					}
+					return nil
+				})
 			case 8: // building other batches (pooled builder state) must not reach into existing segments
 				hist += " buildOther"
 				ob := GenBatch(t, sc, 6)
@@ -259,6 +275,9 @@ func c15Prop(st *CaseStats) func(t *rapid.T) {
 		var labels []string
 		if mergedWithDrops {
 			labels = append(labels, "merge-with-nonempty-drops")
+		}
+		if aliased {
+			labels = append(labels, "Fields()-slice-passed-back")
 		}
 		st.Record(desc+" history"+hist, nt, labels...)
 	}
